@@ -7,8 +7,9 @@
   text (Rtp/Pred/C18.lean).
 -/
 import Rtp.Proofs.Ntp
+import Rtp.Props.C17
 namespace Rtp.Props.C18
-open Rtp Rtp.Model.Ntp Rtp.Pred.C18 Rtp.Proofs.Ntp
+open Rtp Rtp.Model.Ntp Rtp.Model.Ext Rtp.Pred.C18 Rtp.Pred.C17 Rtp.Spec.Ext Rtp.Proofs.Ntp Rtp.Proofs.Ext
 
 /-- every instant from 1970-01-01 up to the end of the NTP era:
     `NewAbsCaptureTimeExtension(t).CaptureTime()` is `t` or `t − 1 ns` -/
@@ -92,4 +93,85 @@ example : decodeOffset (encodeOffset 1250000000) = 1250000000 ∧ decodeOffset (
     offsetOk (2147483648000000000 : Int64).toInt = false := by
   decide
 
+/-! ### the stated ranges and tolerances are tight -/
+
+/-- the tolerance 3815 ns is attained (so 3814 ns, i.e. ⌊2^-18 s⌋, would be false), with no delay at all -/
+theorem c18_estimate_tolerance_attained :
+    estimateWF 1700000000000007629 0 = true ∧
+    (1700000000000007629 : Int64).toInt -
+      (estimateNs (sendTimestamp 1700000000000007629 &&& 0xFFFFFF) (1700000000000007629 + 0)).toInt = 3815 := by
+  decide
+
+/-- one nanosecond beyond the delay range the estimate can be a whole period (64 s) off -/
+theorem c18_estimate_delay_bound_tight :
+    delayOk 63999996185 = true ∧ delayOk 63999996186 = false ∧
+    estimateNs (sendTimestamp 1700000000000003814 &&& 0xFFFFFF) (1700000000000003814 + 63999996186)
+      = 1700000064000000000 := by
+  decide
+
+/-- at the end of the era the timestamp's seconds wrap: the first instant outside the range comes back as
+    the 1900 epoch expressed in Unix time, 136 years off -/
+theorem c18_capture_era_bound_tight :
+    instantOk (2085978496000000000 : Int64).toInt = false ∧ captureTimestamp 2085978496000000000 = 0 ∧
+    captureTime (captureTimestamp 2085978496000000000) = -2208988800000000000 := by
+  decide
+
+/-- at 2^31 s the seconds of the offset reach the sign bit of the Q32.32 value: −2^31 s, and 2^31 s + 1 ns,
+    come back with the opposite sign -/
+theorem c18_offset_bound_tight :
+    offsetOk (-2147483648000000000 : Int64).toInt = false ∧
+    decodeOffset (encodeOffset (-2147483648000000000)) = 2147483648000000000 ∧
+    offsetOk (2147483648000000001 : Int64).toInt = false ∧
+    decodeOffset (encodeOffset 2147483648000000001) = -2147483647999999999 := by
+  decide
+
+/-! ### the same through the wire (Marshal, then Unmarshal into any receiver): C17 ∘ C18 -/
+
+/-- what arrives of `NewAbsSendTimeExtension(send)`: its low 24 bits -/
+theorem abssend_wire (ts : UInt64) (r : AbsSendTime) :
+    ∃ b, absSendMarshal ⟨ts⟩ = .ok b ∧ absSendUnmarshal r b = ⟨.ok (), ⟨ts &&& 0xFFFFFF⟩⟩ := by
+  obtain ⟨h1, _, _, _, h5⟩ := Rtp.Props.C17.c17_abssend_spelled
+  refine ⟨_, h1 ts, ?_⟩
+  have hlt : ts &&& 0xFFFFFF < 16777216 := by
+    rw [UInt64.lt_iff_toNat_lt, UInt64.toNat_and, show (0xFFFFFF : UInt64).toNat = 2 ^ 24 - 1 from rfl,
+      Bits.nat_and_mask]
+    exact Nat.mod_lt _ (by decide)
+  have e : (ts &&& 0xFFFFFF).toNat % 2 ^ 24 = ts.toNat % 2 ^ 24 := by
+    rw [UInt64.toNat_and, show (0xFFFFFF : UInt64).toNat = 2 ^ 24 - 1 from rfl, Bits.nat_and_mask, Nat.mod_mod]
+  have := h5 (ts &&& 0xFFFFFF) r hlt
+  rw [e] at this
+  exact this
+
+theorem c18_estimate_wire (send delay : Int64) (r : AbsSendTime) (h : estimateWF send delay = true) :
+    ∃ b, absSendMarshal ⟨sendTimestamp send⟩ = .ok b ∧ (absSendUnmarshal r b).res = .ok () ∧
+      0 ≤ send.toInt - (estimateNs (absSendUnmarshal r b).st.ts (send + delay)).toInt ∧
+      send.toInt - (estimateNs (absSendUnmarshal r b).st.ts (send + delay)).toInt ≤ 3815 := by
+  obtain ⟨b, hb, hu⟩ := abssend_wire (sendTimestamp send) r
+  refine ⟨b, hb, ?_⟩
+  rw [hu]
+  exact ⟨rfl, c18_estimate_spec send delay h⟩
+
+theorem c18_capture_wire (t : Int64) (r : AbsCaptureTime) (h : instantOk t.toInt = true) :
+    ∃ b, absCaptureMarshal ⟨captureTimestamp t, none⟩ = .ok b ∧ (absCaptureUnmarshal r b).res = .ok () ∧
+      0 ≤ t.toInt - (captureTime (absCaptureUnmarshal r b).st.ts).toInt ∧
+      t.toInt - (captureTime (absCaptureUnmarshal r b).st.ts).toInt ≤ 1 := by
+  obtain ⟨h1, _, _, _, _, _, h7⟩ := Rtp.Props.C17.c17_abscapture_spelled
+  refine ⟨_, h1 _, ?_⟩
+  have := h7 ⟨captureTimestamp t, none⟩ r
+  simp only [absCaptureTime, Option.map] at this
+  rw [this]
+  exact ⟨rfl, c18_capture_spec t h⟩
+
+theorem c18_offset_wire (t d : Int64) (r : AbsCaptureTime) (h : offsetOk d.toInt = true) :
+    ∃ b, absCaptureMarshal ⟨captureTimestamp t, some (encodeOffset d)⟩ = .ok b ∧
+      (absCaptureUnmarshal r b).res = .ok () ∧
+      ∃ o, (absCaptureUnmarshal r b).st.off = some o ∧ Pred.C18.offset d.toInt (decodeOffset o).toInt = true := by
+  obtain ⟨_, h2, _, _, _, _, h7⟩ := Rtp.Props.C17.c17_abscapture_spelled
+  refine ⟨_, h2 _ _, ?_⟩
+  have := h7 ⟨captureTimestamp t, some (encodeOffset d)⟩ r
+  simp only [absCaptureTime, Option.map] at this
+  rw [this]
+  refine ⟨rfl, _, rfl, ?_⟩
+  have := c18_offset d
+  simpa [offsetOkObs, h] using this
 end Rtp.Props.C18
